@@ -44,8 +44,8 @@ PStep(c, l) ==
     [] c.st = "body" ->
          CASE Blank(l) -> c
            [] StartsWith(l, KSet) \/ StartsWith(l, KSkin) -> c
-           [] IsClassOpen(l) -> IF ClassName(l) \in c.names THEN PErr(c, "class-declared-twice")
-                                ELSE [c EXCEPT !.st = "class", !.classes = @ + 1, !.names = @ \cup {ClassName(l)}]
+           \* (a class may be declared more than once: PlantUML merges the declarations)
+           [] IsClassOpen(l) -> [c EXCEPT !.st = "class", !.classes = @ + 1, !.names = @ \cup {ClassName(l)}]
            [] l = KLegend -> [c EXCEPT !.st = "legend"]
            [] l = KEnd -> [c EXCEPT !.st = "end"]
            [] l = KClose -> PErr(c, "unbalanced-close")
